@@ -282,6 +282,7 @@ def generate(ctx, name, consts, timeout=900, specfile="DnsWireGen.tla", idfn=Non
     vecs = list(printed(r.out))
     if len(vecs) != r.distinct:
         raise vlib.MachineryError("generator %s: %d states but %d printed vectors" % (name, r.distinct, len(vecs)))
+    vecs = [v for v in vecs if "root" not in v]      # DnsWireGen: initial states carry no vector
     if idfn is None:
         def idfn(v):
             m = v["mut"]
